@@ -55,6 +55,8 @@ def leaf(rng):
         return ev.generic(rng.choice(['is_admin', 'system_scope', 'user.domain.id', 'project.domain.id', 'roles', 'roles']), rng.choice(['True', 'all', 'd1', 'admin', 'Admin', 'ADMIN']))
     if r < 0.78:
         return ev.generic(rng.choice(["'lit'", 'True', '1']), ev.ph(rng.choice(['flag', 'n.k'])))
+    if r < 0.86:
+        return rng.choice([ev.generic('system_scope', 'all'), ev.Not(ev.generic('system_scope', 'all'))])
     return rng.choice([ev.T, ev.F])
 
 
